@@ -543,7 +543,7 @@ def stepReg (st : DriverState) (op : String) (j : Json) : DriverState × Json :=
   | "reset" => ({ reg := Gen.defaultRegistry }, okJ Json.null)
   | "define" =>
     match field j "def" >>= jUnitDef? with
-    | some d => ({ st with reg := R.addUnit d }, okJ Json.null)
+    | some d => ({ st with reg := R.addUnit d, baseReg := st.baseReg.map (·.addUnit d) }, okJ Json.null)
     | none => (st, badJ "define: def")
   | "load" =>
     match field j "defs" >>= jArr? with
